@@ -1109,16 +1109,16 @@ def bounded_dataset_derivations(tier='quick'):
                 'replay_fn': 'bounded_dataset_derivations_replay',
             }
         )
-    thorough = tier == 'thorough'
+    extra = 1 if tier == 'thorough' else 0
     bound = (
         'all event datasets over %d column schemas (optional EVID/MDV/RATE/ADDL+II/SS/CMT/ADMID '
-        'columns, id column ID or SUBJ, no dose column): one individual with <=%d records, TIME in '
-        '{0,1,2} non-decreasing within a reset group (ties included), every record kind of the '
-        'schema (observation, missing observation, dose, dose with ADDL=1 II=1, SS dose, EVID 3, '
-        'EVID 4, doses into compartment 1/2); and two individuals (ids 3,7 and 7,3) with <=%d '
-        'records in total, TIME in %s; covariates constant / varying in the first / last individual'
-        % (len(SCHEMAS), 4 if thorough else 3, 4 if thorough else 3,
-           '{0,1,2}' if thorough else '{0,1}')
+        'columns, id column ID or SUBJ, one schema without dose column): one individual (id 3) '
+        'with <=%d records (<=%d in 2 near-duplicate schemas), TIME in {0,1,2} non-decreasing '
+        'within a reset group (ties included), every record kind of the schema (observation, '
+        'MDV=1 non-dose record, dose, dose with ADDL=1 II=1, SS dose, EVID 3, EVID 4, doses into '
+        'compartment 1/2); two individuals (ids 3,7; also 7,3 when they have <=%d records in '
+        'total) with <=%d records in total, TIME in {0,1}; covariates constant / varying in the '
+        'first / last individual' % (len(SCHEMAS), 3 + extra, 2 + extra, 2 + extra, 3 + extra)
     )
     samples = [repr(cases[i])[:200] for i in (0, len(cases) // 2, len(cases) - 1)]
     return {
